@@ -9,6 +9,7 @@ from ..report import Ctx
 SSO = "nrel/hive/state/simulation_state/update/step_simulation_ops.py"
 TO = "nrel/hive/util/tuple_ops.py"
 CQ = "nrel/hive/state/vehicle_state/charge_queueing.py"
+CS = "nrel/hive/state/vehicle_state/charging_station.py"
 DS = "nrel/hive/state/vehicle_state/dispatch_station.py"
 
 EXPLANATION = (
@@ -51,7 +52,9 @@ def run(ctx: Ctx):
     ctx.attempt(order, ctx)
     ctx.attempt(enqueue_time_writers, ctx)
     ctx.attempt(leave_queue, ctx)
+    ctx.attempt(head_of_line, ctx)
     ctx.floor("ORD.queue-order", 3)
+    ctx.floor("GD.head-of-line", 4)
     ctx.not_decided += ["interleavings with controller instructions that pull a later vehicle out of the queue"]
 
 
@@ -206,6 +209,41 @@ def enqueue_time_writers(ctx: Ctx):
                   construct=f"{s.qual}:ChargeQueueing-construction")
 
 
+GRANT_ONLY = ("checkout_charger(", "modify_station(")  # the acquisition of the plug and its commit: what the queue waits for
+
+
+def head_of_line(ctx: Ctx):
+    """D3: the vehicle at the head of a queue is served when a plug frees only if the plug grant
+    (ChargingStation.enter) accepts it. Every condition the grant requires, other than the plug being free, must
+    already be a condition of admission to the queue (ChargeQueueing.enter); otherwise an admitted vehicle fails its
+    queue-to-plug transition every step, is rolled back, and the vehicles behind it are served first."""
+    repo = ctx.repo
+    need = {}
+    for name in ("ChargingStation", "ChargeQueueing"):
+        sc = states.state_class(repo, name)
+        ren = sc.rename(sc.enter)
+        succ = sc.success("enter")
+        if not succ:
+            raise AnalysisError(f"{name}.enter has no success path")
+        sets = [{(states.ndump(a, ren), pol) for a, pol in m.path.facts()} for m in succ]
+        need[name] = (sc, set.intersection(*sets))
+    plug_sc, plug = need["ChargingStation"]
+    q_sc, queue = need["ChargeQueueing"]
+    # only conditions on the vehicle can tell two vehicles of one queue (same station, same plug type) apart; a condition on
+    # the station or the plug type alone fails for the whole queue at once and cannot reorder it
+    elig = sorted((d, pol) for d, pol in plug if not any(g in d for g in GRANT_ONLY) and "SELF.vehicle_id" in d)
+    ctx.require(len(elig) >= 4, f"ChargingStation.enter: only {len(elig)} eligibility conditions recognised")
+    for d, pol in elig:
+        if d.startswith("$isnone(") and ((d[len("$isnone("):-1], not pol) in plug or (d[len("$isnone("):-1], True) in plug):
+            continue  # implied form of an atom judged on its own
+        txt = d if pol else f"not ({d})"
+        ctx.check((d, pol) in queue, "D3", "GD.head-of-line", f"plug grant requires `{txt[:110]}`: also required for admission to the queue", q_sc.enter,
+                  why_ok="ChargeQueueing.enter requires the same condition on every success path",
+                  why_bad=f"ChargingStation.enter refuses unless `{txt[:200]}`, but ChargeQueueing.enter admits without it: an admitted vehicle for which it fails is passed over at the "
+                          f"head of the queue every step while vehicles that joined later take the plug",
+                  construct=f"head-of-line:{txt[:160]}")
+
+
 def leave_queue(ctx: Ctx):
     from .c02 import terminal
     terminal(ctx)
@@ -224,6 +262,10 @@ def selftest():
           "            less_energy_vehicle = mechatronics.idle(vehicle, sim.sim_timestep_duration_seconds).modify_vehicle_state(ChargeQueueing.build(self.vehicle_id, self.station_id, self.charger_id, sim.sim_time))\n\n            return simulation_state_ops.modify_vehicle(sim, less_energy_vehicle)", rule="WMC.enqueue"),
         V("arrival-stamp-zero", DS, "                    self.charger_id,\n                    sim.sim_time,\n                )", "                    self.charger_id,\n                    0,\n                )", rule="WMC.enqueue"),
         V("queue-leaves-without-plug", CQ, "        if not station:\n            return True\n        else:\n            return station.has_available_charger(self.charger_id)", "        if not station:\n            return True\n        else:\n            return True", rule="ORD.terminal"),
+        V("grant-receiver-swapped", CS, "        elif not station.membership.grant_access_to_membership(vehicle.membership):\n            msg = f\"vehicle {vehicle.id} doesn't have access to station {station.id}\"", "        elif not vehicle.membership.grant_access_to_membership(station.membership):\n            msg = f\"vehicle {vehicle.id} doesn't have access to station {station.id}\"", rule="GD.head-of-line"),
+        V("grant-extra-vehicle-condition", CS, "        elif charger is None:\n            return None, None\n        elif not mechatronics.valid_charger(charger):", "        elif charger is None:\n            return None, None\n        elif vehicle.driver_state.schedule_id is None:\n            return None, None\n        elif not mechatronics.valid_charger(charger):", rule="GD.head-of-line"),
+        V("queue-drops-compat-check", CQ, "            elif not mechatronics.valid_charger(charger):\n                msg = f\"vehicle {vehicle.id} of type {vehicle.mechatronics_id} can't use charger {charger.id}\"\n                return SimulationStateError(msg), None\n", "", rule="GD.head-of-line"),
+        V("twin-grant-extra-station-condition", CS, "        elif charger is None:\n            return None, None\n        elif not mechatronics.valid_charger(charger):", "        elif charger is None:\n            return None, None\n        elif station.balance < -1e9:\n            return None, None\n        elif not mechatronics.valid_charger(charger):", kind="twin"),
         V("twin-single-sort-minus-one", SSO, "        return sorted_other_vehicles + sorted_charge_queueing_vehicles",
           "        return tuple(sorted(vs, key=lambda v: (v.vehicle_state.enqueue_time, v.id) if isinstance(v.vehicle_state, ChargeQueueing) else (-1, v.id)))", kind="twin"),
     ]
